@@ -44,7 +44,8 @@ from .lib import CoqFailure, coq_Z, coq_list, coq_nat
 #   20 x median = 1.1 would still alarm on ~3% of correct cases (heavy tail), so the factor is 5 x the largest ratio seen:
 RES_FACTOR = 6.0
 #   3-D far field |G/G_cont - 1| (|x|/l)^2, l = V^(1/3), at a quarter of the k-mesh period (129 points):
-#   median 0.146, 90% 0.63, max 1.71  ->  K_CAP = 20 x median (= 1.75 x max)
+#   median 0.146, 90% 0.63, max 1.71 (second sample, 126 points: median 0.076, 90% 0.63, max 1.45; the tail is heavy for every
+#   length normalisation tried: V^(1/3), cells, D-metric)  ->  K_CAP = 20 x median of the first sample (= 1.75 x largest seen)
 K_CAP = 3.0
 #   swap / space-group / scaling pairs (2928 pairs): enforced by construction in __call__ (explicit group average, maxrate
 #   normalisation), independent of the quadrature: median 0, max 8.6e-15 relative to max|G|  ->  100 x max
